@@ -90,7 +90,7 @@ type sbEvent struct {
 
 const sbProgram = "inc r0\nr2owa r0 o0\nj 0\n"
 
-var sbObjs = []string{"o0", "p0r0", "p0r1", "p0r2", "p0r3", "i0"}
+var sbObjs = []string{"o0", "p0r0", "p0r1", "p0r2", "p0r3", "i0", "i1"}
 
 func runC15(r *evid.Run) {
 	scratch, err := os.MkdirTemp("", "bmverif-c15-")
@@ -232,15 +232,17 @@ func runC15(r *evid.Run) {
 		return
 	}
 	bm := newBM(8)
-	m, err := mkMachine(8, 2, 1, 1, 0, []string{"inc", "r2owa", "j"}, sbProgram)
+	m, err := mkMachine(8, 2, 2, 1, 0, []string{"inc", "r2owa", "j"}, sbProgram)
 	if err != nil {
 		r.Inconclusive("machine: %v", err)
 		return
 	}
 	bm.Add_input()
+	bm.Add_input()
 	bm.Add_output()
 	addProc(bm, m)
 	bm.Add_bond([]string{"p0i0", "i0"})
+	bm.Add_bond([]string{"p0i1", "i1"})
 	bm.Add_bond([]string{"o0", "p0o0"})
 	mj, err := json.Marshal(bm.Jsoner())
 	if err != nil {
@@ -366,8 +368,8 @@ func runC15(r *evid.Run) {
 					ev.VRise = append(ev.VRise, "o0")
 				}
 				for _, ru := range rules {
-					if !ru.Suspended && ru.Timec == "absolute" && ru.Action == "set" && ru.Object == "i0" && ru.Tick == t {
-						ev.VRise = append(ev.VRise, "i0")
+					if !ru.Suspended && ru.Timec == "absolute" && ru.Action == "set" && (ru.Object == "i0" || ru.Object == "i1") && ru.Tick == t {
+						ev.VRise = append(ev.VRise, ru.Object)
 					}
 				}
 				if sc.Mode == "exhaust" && t == N-1 {
